@@ -96,6 +96,15 @@ def describe_reject(r):
     return "accepted"
 
 
+def _first_fatal_line(stderr):
+    lines = [l.strip() for l in (stderr or "").split("\n") if l.strip()]
+    for l in lines:
+        if not l.startswith("{") and any(w in l.lower() for w in ("panic", "fatal", "failed", "error", "died", "dying")):
+            return l[:300]
+    plain = [l for l in lines if not l.startswith("{")]
+    return (plain or lines or ["(no stderr)"])[0][:300]
+
+
 def _is_panic(c):
     return c.get("kind") == "panic" or c.get("note", "").startswith("panic")
 
@@ -213,6 +222,12 @@ def run_engine_check(ctx, profile, n_quick, n_thorough, extra_header="", monitor
     harness_wall = time.time() - t_h
     ctx.oblige("harness run completes", True)
 
+    # a child that died ONCE and whose cases then ran 3 rounds in fresh children without dying again: not a violation by
+    # itself (the traces of the re-run rounds are in `cases` and are checked like any other); recorded and printed
+    deaths = [c for c in cases if c.get("kind") == "child-death-unreproduced"]
+    cases = [c for c in cases if c.get("kind") != "child-death-unreproduced"]
+    for c in deaths:
+        ctx.say("NOTE: child process died once and did not reproduce in 3 re-runs: " + _first_fatal_line(c.get("observed", {}).get("stderr", "")))
     panics = [c for c in cases if _is_panic(c)]
     cases = [c for c in cases if not _is_panic(c)]
     if panics:
@@ -348,7 +363,10 @@ def run_engine_check(ctx, profile, n_quick, n_thorough, extra_header="", monitor
         traces_validated_against_impl=len(live),
         accepted_by_automaton=accepted, rejected_by_automaton=len(live) - accepted,
         monitor_false={m: len(v) for m, v in mon_bad.items()},
-        hangs=len(hangs), panics=len(panics), excluded_late_start=len(late), neighbour_search=neighbour,
+        hangs=len(hangs), panics=len(panics),
+        unreproduced_child_deaths=dict(count=len(deaths), items=[dict(cases=c["input"].get("cases"), opts=c["input"].get("opts"),
+                                                                       profile=c["input"].get("profile"), rerun_cases=c.get("observed", {}).get("rerun_cases"),
+                                                                       stderr_tail=c.get("observed", {}).get("stderr", "")[-1500:]) for c in deaths[:10]]), excluded_late_start=len(late), neighbour_search=neighbour,
         late_start=sum(c["dist"].get("late_starts", 0) for c in late), late_end=sum(c["dist"].get("late_ends", 0) for c in late), late_never=sum(c["dist"].get("late_never", 0) for c in late),
         late_reruns=sum(c["dist"].get("late_reruns", 0) for c in cases),
         events_total=sum(c["dist"].get("events", 0) for c in live),
